@@ -1019,6 +1019,7 @@ pub fn new_instance(sc: &Scenario, scratch: &Scratch) -> ModInstance {
         run_tests: false,
         run_import_tests: sc.run_import_tests,
         execution_limit_ns: None,
+        builder_order_seed: sc.ops.len() as u64,
     });
     let log: Arc<Mutex<ModLog>> = Default::default();
     let prelude = host.koto.prelude();
